@@ -504,29 +504,33 @@ from guppylang.std.builtins import owned
 def f(q: qubit @owned) -> qubit: ...
 @guppy.declare({NAMES[I['b']]})
 def g(q: qubit @owned) -> qubit: ...
-@guppy({NAMES[I['ctx']]})
-def caller(q1: qubit @owned, q2: qubit @owned) -> tuple[qubit, qubit]:
+""" + "".join(f"""@guppy({NAMES[c]})
+def caller{c}(q1: qubit @owned, q2: qubit @owned) -> tuple[qubit, qubit]:
     return (f, g)(q1, q2)
-"""
+""" for c in range(8))
 d = tempfile.mkdtemp(dir=os.environ.get("TMPDIR", "/var/tmp")); fn = os.path.join(d, "replay_c24t.py"); open(fn, "w").write(src)
 spec = importlib.util.spec_from_file_location("replay_c24t", fn); m = importlib.util.module_from_spec(spec); sys.modules["replay_c24t"] = m
 spec.loader.exec_module(m)
-try:
-    m.caller.check(); got = "accepted"
-except GuppyError as ex:
-    got = "rejected:" + type(ex.error).__name__
+bad = []
+for c in range(8):
+    try:
+        getattr(m, f"caller{c}").check(); got = "accepted"
+    except GuppyError as ex:
+        got = "rejected:" + type(ex.error).__name__
+    must_reject = (c & I["a"] & I["b"]) != c
+    if must_reject != (got != "accepted"):
+        bad.append(f"context flags {c}: {got}, required {'rejected' if must_reject else 'accepted'}")
 shutil.rmtree(d, ignore_errors=True)
-must_reject = (I["ctx"] & I["a"] & I["b"]) != I["ctx"]
-print(json.dumps({"violates": must_reject and got == "accepted", "observed": got, "required": "rejected (a component lacks a flag the context requires)" if must_reject else "either",
-                  "detail": f"context flags {I['ctx']}, tensor of callees with flags {I['a']} and {I['b']}: {got}"}))
+print(json.dumps({"violates": bool(bad), "observed": bad, "required": "a tensor (f, g) with component flags a, b is accepted in a context exactly when every component has every flag the context requires",
+                  "detail": f"tensor of callees with flags {I['a']} and {I['b']}: " + "; ".join(bad)}))
 '''
 
 
 def tensor_signature(chk):
     """function_tensor_signature (tys/ty.py): the type of a tensor `(f, g)`, which visit_TensorCall hands to
-    _check_call.  The flags it carries must be flags EVERY component has — otherwise a context requiring
-    flag F accepts a tensor with a component lacking F (qubits passed to a callee whose flags do not
-    include every flag the context requires)."""
+    _check_call.  The flags it carries are exactly the flags EVERY component has — a flag too many and a
+    context requiring F accepts a tensor with a component lacking F; a flag too few and a tensor of
+    functions that all have F is rejected in a context requiring F ("such code is otherwise accepted")."""
     e = mk_engine(chk)
     e.func_info(TYM, "function_tensor_signature")
     m = e.module(TYM)
@@ -542,9 +546,9 @@ def tensor_signature(chk):
             if p.kind != "return":
                 return z3.BoolVal(False)
             fl = p.value.fields["unitary_flags"]
-            return z3.BoolVal(isinstance(fl, FlagVal) and (fl.value & ~(a & b) & 7) == 0)
-        chk.prove_paths(f"function_tensor_signature[{a},{b}]:carries-only-flags-every-component-has", e.explore(t), post, func=f"{TYM}:function_tensor_signature",
-                        replay=lambda m_, a=a, b=b: {"script": REPLAY_TENSOR, "input": {"a": a, "b": b, "ctx": (a | b) & ~(a & b) & 7 or 7}})
+            return z3.BoolVal(isinstance(fl, FlagVal) and fl.value == (a & b))
+        chk.prove_paths(f"function_tensor_signature[{a},{b}]:carries-exactly-the-flags-every-component-has", e.explore(t), post, func=f"{TYM}:function_tensor_signature",
+                        replay=lambda m_, a=a, b=b: {"script": REPLAY_TENSOR, "input": {"a": a, "b": b}})
     chk.use_engine(e)
 
 
